@@ -388,6 +388,41 @@ func streamText(c *ctx) {
 		emitFmt("cardformat-string", fmt.Sprintf("u8:%d", f), "text "+cases.Hex([]byte(types.CardFormat(f).String())))
 	}
 
+	// --- a task object whose dates are given, empty (""), null or left out: both dates are required (a missing or null one
+	// is rejected with an error - never a crash), "" is the no-date value
+	{
+		task := types.Task{Task: types.TaskType(1), Door: 3, From: types.ToDate(2024, 1, 1), To: types.ToDate(2024, 12, 31),
+			Weekdays: types.Weekdays{time.Monday: true}, Start: types.NewHHmm(8, 30), Cards: 1}
+		base, _ := json.Marshal(task)
+		for _, from := range []string{"valid", "empty", "null", "absent"} {
+			for _, to := range []string{"valid", "empty", "null", "absent"} {
+				out := guard(func() string {
+					var m map[string]json.RawMessage
+					if err := json.Unmarshal(base, &m); err != nil {
+						return "harness-error"
+					}
+					for key, how := range map[string]string{"start-date": from, "end-date": to} {
+						switch how {
+						case "empty":
+							m[key] = json.RawMessage(`""`)
+						case "null":
+							m[key] = json.RawMessage(`null`)
+						case "absent":
+							delete(m, key)
+						}
+					}
+					b, _ := json.Marshal(m)
+					var t types.Task
+					if err := json.Unmarshal(b, &t); err != nil {
+						return "err"
+					}
+					return "ok"
+				})
+				w.Emit("taskobj "+from+" "+to, out, "taskobj/"+out)
+			}
+		}
+	}
+
 	// --- round trips through encoding/json into fresh zero-valued variables, containers included
 	emitRT := func(typ, desc, out string) {
 		w.Emit("rt "+typ+" "+desc, out, "rt/"+typ, "rt-res/"+strings.SplitN(out, " ", 2)[0])
